@@ -379,7 +379,75 @@ fn part_arg_binding(ctx: &Ctx, sink: &mut Sink) {
     }
 }
 
+/// Sibling closures: several functions made by ONE factory (same parameters, same body, different captured values) used
+/// side by side. Wherever they are called - one after the other, as the functions of a list-via-list application, stored in
+/// a list / record, passed to map in turn - each sees its own captured values.
+fn part_siblings(ctx: &Ctx, sink: &mut Sink) {
+    let factories: [(&str, &str); 6] = [
+        ("adds-captured", "k => (x => x + k)"),
+        ("captured-in-list", "k => (x => [x, k])"),
+        ("two-level", "k => (x => (y => y * k)(x) + k)"),
+        ("do-block", "k => (x => do {\n t = x * k\n return t + k\n})"),
+        ("two-captures", "(k, m?) => (x => [x, k, m])"),
+        ("captures-function", "k => (x => (q => q + k)(x))"),
+    ];
+    let n = ctx.budget(600, 20_000);
+    for i in 0..n {
+        if !ctx.mine(i) {
+            continue;
+        }
+        let mut r = Rng::derive(ctx.seed, "c04-siblings", i);
+        let (fname, fsrc) = factories[(i as usize / ctx.shard_n as usize) % factories.len()];
+        let cnt = 2 + r.below(4);
+        let caps: Vec<i64> = (0..cnt).map(|j| (j as i64 + 1) * 10 + r.range(0, 5)).collect();
+        let args: Vec<i64> = (0..cnt).map(|_| r.range(0, 9)).collect();
+        let sess = Sess::new();
+        if !sess.eval(&format!("mk = {}", fsrc)).is_ok() {
+            continue;
+        }
+        let _ = sess.eval(&format!("fs = [{}]", caps.iter().map(|c| format!("mk({})", c)).collect::<Vec<_>>().join(", ")));
+        let _ = sess.eval(&format!("xs = [{}]", args.iter().map(|a| a.to_string()).collect::<Vec<_>>().join(", ")));
+        // reference: each function made and called on its own, in a session of its own
+        let reference: Vec<ROut> = caps
+            .iter()
+            .zip(args.iter())
+            .map(|(c, a)| {
+                let s2 = Sess::new();
+                let _ = s2.eval(&format!("mk = {}", fsrc));
+                s2.rout(&s2.eval(&format!("mk({})({})", c, a)))
+            })
+            .collect();
+        let expected = if reference.iter().all(|o| matches!(o, ROut::Ok(_))) {
+            ROut::Ok(RVal::List(reference.iter().map(|o| if let ROut::Ok(v) = o { v.clone() } else { RVal::Null }).collect()))
+        } else {
+            continue;
+        };
+        sink.case(&format!("siblings|{}|{:?}|{:?}", fname, caps, args), true);
+        let idxs: Vec<String> = (0..cnt).map(|j| j.to_string()).collect();
+        let forms: Vec<(&str, String)> = vec![
+            ("list-via-list", "xs via fs".to_string()),
+            ("indexed-calls", format!("[{}]", idxs.iter().map(|j| format!("fs[{}](xs[{}])", j, j)).collect::<Vec<_>>().join(", "))),
+            ("zip-then-apply", "zip(fs, xs) via (p => p[0](p[1]))".to_string()),
+            ("map-over-functions", "map(fs, (g, j) => g(xs[j]))".to_string()),
+            ("into-each", format!("[{}]", idxs.iter().map(|j| format!("xs[{}] into fs[{}]", j, j)).collect::<Vec<_>>().join(", "))),
+            ("single-via-each", format!("[{}]", idxs.iter().map(|j| format!("([xs[{}]] via fs[{}])[0]", j, j)).collect::<Vec<_>>().join(", "))),
+            ("reversed-order-calls", format!("reverse([{}])", idxs.iter().rev().map(|j| format!("fs[{}](xs[{}])", j, j)).collect::<Vec<_>>().join(", "))),
+        ];
+        for (form, src) in forms {
+            let got = sess.rout(&sess.eval(&src));
+            if !got.agrees(&expected) {
+                sink.viol(
+                    &format!("sibling-closures form={} factory={}", form, fname),
+                    "closures made by one factory with different captured values do not each see their own values at this call site",
+                    json!({"factory": fsrc, "captured": caps, "arguments": args, "expression": src, "got": got.show(), "expected": expected.show()}),
+                );
+            }
+        }
+    }
+}
+
 pub fn run(ctx: &Ctx, sink: &mut Sink) {
+    part_siblings(ctx, sink);
     part_call_sites(ctx, sink);
     part_random_closures(ctx, sink);
     part_param_shadowing(ctx, sink);
